@@ -162,4 +162,523 @@ theorem findPrefilter_too_small (f : Finder) (hay : Slice) (c : Ctr)
   unfold findPrefilter
   simp only [ha, assert_false, M.bind_run, fail_run]
 
+/-! ### `find` with an arbitrary search needle -/
+
+/-- number of haystack offsets whose pair lanes `find` / `find_prefilter` look at:
+`0 .. len - min_haystack_len + BYTES - 1` -/
+def Finder.scanned (V : VecImpl) (f : Finder) (hay : Slice) : Nat :=
+  hay.len - f.minHaystackLen + V.bytes
+
+/-- value of `find` for an arbitrary search needle: the lowest scanned offset where the pair
+matches and the search needle occurs -/
+def FindRes' (V : VecImpl) (f : Finder) (hay needle : Slice) : Option Nat → Prop
+  | some x => x < f.scanned V hay ∧ f.HitAt' hay needle x ∧ ∀ q, q < x → ¬ f.HitAt' hay needle q
+  | none => ∀ q, q < f.scanned V hay → ¬ f.HitAt' hay needle q
+
+theorem noHitIn_iff (f : Finder) {hay needle : Slice} (hh : hay.Valid) (hn : needle.Valid)
+    (n : Nat) (hnr : n + max f.index1 f.index2 ≤ hay.len) :
+    NoHitIn f hay.mem needle hay.endPtr hay.ptr (hay.ptr + n) ↔
+      ∀ q, q < n → ¬ f.HitAt' hay needle q := by
+  constructor
+  · intro h q hq hhit
+    exact h (hay.ptr + q) (by omega) (by omega) ((hitAt_iff f hh hn q (by omega)).mpr hhit)
+  · intro h a ha1 ha2 hhit
+    have e : a = hay.ptr + (a - hay.ptr) := by omega
+    rw [e] at hhit
+    exact h (a - hay.ptr) (by omega) ((hitAt_iff f hh hn _ (by omega)).mp hhit)
+
+theorem findRes_conv (f : Finder) (hok : FinderOk V f) {hay needle : Slice} (hh : hay.Valid)
+    (hn : needle.Valid) (hlen : f.minHaystackLen ≤ hay.len) {r : Option Nat}
+    (h : FindRes f hay.mem needle hay.ptr hay.endPtr
+      (hay.endPtr - f.minHaystackLen + V.bytes) r) : FindRes' V f hay needle r := by
+  obtain ⟨hne, hmin⟩ := hok
+  have elim : hay.endPtr - f.minHaystackLen + V.bytes = hay.ptr + f.scanned V hay := by
+    unfold Slice.endPtr Slice.ptr Finder.scanned; omega
+  rw [elim] at h
+  have hsc : f.scanned V hay + max f.index1 f.index2 ≤ hay.len := by
+    unfold Finder.scanned; omega
+  cases r with
+  | some x =>
+    obtain ⟨a1, a2, a3⟩ := h
+    refine ⟨by omega, (hitAt_iff f hh hn x (by omega)).mp a2, ?_⟩
+    exact (noHitIn_iff f hh hn x (by omega)).mp a3
+  | none => exact (noHitIn_iff f hh hn _ hsc).mp h
+
+/-- the tail's `debug_assert!(overlap < V::BYTES)` -/
+def siteOverlap : String := "find: overlap < V::BYTES"
+/-- the `end.sub(needle.len())` of `find_in_chunk` -/
+def siteEndSub : String := "find_in_chunk: end.sub(needle.len())"
+
+/-- cost bound of `find`: chunks times the cost of one chunk -/
+def findCost (V : VecImpl) (f : Finder) (hay needle : Slice) : Nat :=
+  ((hay.len - f.minHaystackLen) / V.bytes + 2) * (1 + V.bytes * (needle.len / 4 + 3))
+
+/-- the condition under which the tail's `debug_assert!(overlap < V::BYTES)` is reached with
+`overlap = V::BYTES` (impossible for the construction needle) -/
+def OverlapCond (V : VecImpl) (f : Finder) (hay needle : Slice) : Prop :=
+  (hay.len - f.minHaystackLen) % V.bytes = 0 ∧ needle.len + V.bytes ≤ f.minHaystackLen
+
+/-- `find` with any search needle that is not longer than the haystack's region up to the end of
+the haystack: either the lowest scanned hit (with cost), or the `overlap` debug assertion. -/
+theorem find_foreign_good (L : Lawful V) (f : Finder) (hok : FinderOk V f) (hay needle : Slice)
+    (hh : hay.Valid) (hn : needle.Valid) (hlen : f.minHaystackLen ≤ hay.len)
+    (hgood : needle.len ≤ hay.off + hay.len) (c : Ctr) :
+    (∃ r c', find V f hay needle c = .ok r c' ∧ FindRes' V f hay needle r ∧
+      c'.steps ≤ c.steps + findCost V f hay needle ∧
+      (r = none → ¬ OverlapCond V f hay needle)) ∨
+    (find V f hay needle c = .fault (.debugAssert siteOverlap) ∧ OverlapCond V f hay needle ∧
+      ∀ q, q < f.scanned V hay → ¬ f.HitAt' hay needle q) := by
+  have hpos := V.bytes_pos
+  obtain ⟨all, hall, hrun⟩ := find_unfold L f hay needle hh hlen c
+  have G := geom_of f hok hh hlen
+  have hg : hay.mem.base + needle.len ≤ hay.endPtr := by unfold Slice.endPtr; omega
+  have hno : NoHitIn f hay.mem needle hay.endPtr hay.ptr hay.ptr := fun a h1 h2 => by omega
+  have espan : hay.endPtr - f.minHaystackLen + V.bytes - hay.ptr =
+      (hay.len - f.minHaystackLen) + V.bytes := by
+    unfold Slice.endPtr Slice.ptr; omega
+  have elim : hay.endPtr - f.minHaystackLen + V.bytes = hay.ptr + f.scanned V hay := by
+    unfold Slice.endPtr Slice.ptr Finder.scanned; omega
+  have hsc : f.scanned V hay + max f.index1 f.index2 ≤ hay.len := by
+    have := hok.min_ge
+    unfold Finder.scanned; omega
+  rw [hrun]
+  rcases findLoop_good L f hay.mem needle hay.ptr hay.endPtr (hay.endPtr - f.minHaystackLen) all
+    hay.ptr c G hn hg hall (Nat.le_refl _) (Nat.le_trans G.hsm (Nat.le_add_right _ _)) hno with
+    ⟨r, c', hr, hres, hcost, hD⟩ | ⟨hr, hD1, hD2, hD3⟩
+  · left
+    refine ⟨r, c', hr, findRes_conv f hok hh hn hlen hres, ?_, ?_⟩
+    · rw [espan, Nat.add_div_right _ hpos] at hcost
+      exact hcost
+    · rw [espan, Nat.add_mod_right] at hD
+      exact hD
+  · right
+    rw [espan, Nat.add_mod_right] at hD1
+    rw [elim] at hD3
+    exact ⟨hr, ⟨hD1, hD2⟩, (noHitIn_iff f hh hn _ hsc).mp hD3⟩
+
+/-- `find` with a search needle longer than the haystack's region up to the end of the
+haystack: the first pair match in a main-loop chunk computes `end.sub(needle.len())` outside
+the allocation (observation O2: undefined behaviour without a read); with no pair match the
+result is `None`. -/
+theorem find_foreign_bad (L : Lawful V) (f : Finder) (hok : FinderOk V f) (hay needle : Slice)
+    (hh : hay.Valid) (hlen : f.minHaystackLen ≤ hay.len)
+    (hbad : hay.off + hay.len < needle.len) (c : Ctr) :
+    ((∃ q, q ≤ hay.len - f.minHaystackLen + q % V.bytes ∧ f.CandAt hay q) ∧
+      find V f hay needle c = .fault (.ptrOob siteEndSub)) ∨
+    ((∀ q, q ≤ hay.len - f.minHaystackLen + q % V.bytes → ¬ f.CandAt hay q) ∧
+      ∃ c', find V f hay needle c = .ok none c') := by
+  have hpos := V.bytes_pos
+  obtain ⟨all, hall, hrun⟩ := find_unfold L f hay needle hh hlen c
+  have G := geom_of f hok hh hlen
+  have hmin := hok.min_ge
+  have hg : hay.endPtr < hay.mem.base + needle.len := by unfold Slice.endPtr; omega
+  have hrange : ∀ q, q ≤ hay.len - f.minHaystackLen + q % V.bytes →
+      q + max f.index1 f.index2 < hay.len := by
+    intro q hq
+    have := Nat.mod_lt q hpos
+    omega
+  have hconv : ∀ q, (hay.ptr + q ≤ hay.endPtr - f.minHaystackLen +
+      (hay.ptr + q - hay.ptr) % V.bytes) ↔ q ≤ hay.len - f.minHaystackLen + q % V.bytes := by
+    intro q
+    have e : hay.ptr + q - hay.ptr = q := by omega
+    rw [e]
+    unfold Slice.endPtr Slice.ptr; omega
+  rw [hrun]
+  rcases findLoop_bad L f hay.mem needle hay.ptr hay.endPtr (hay.endPtr - f.minHaystackLen) all
+    hay.ptr c G hg hall (Nat.le_refl _) (Nat.le_trans G.hsm (Nat.le_add_right _ _)) with
+    ⟨⟨a, ha1, ha2, ha3⟩, hr⟩ | ⟨hnone, hr⟩
+  · left
+    have e : a = hay.ptr + (a - hay.ptr) := by omega
+    rw [e] at ha2 ha3
+    have hq := (hconv _).mp ha2
+    exact ⟨⟨a - hay.ptr, hq, (candA_iff f hh _ (hrange _ hq)).mp ha3⟩, hr⟩
+  · right
+    refine ⟨?_, hr⟩
+    intro q hq hc
+    have := hnone (hay.ptr + q) (by omega) ((hconv q).mpr hq)
+    rw [(candA_iff f hh q (hrange q hq)).mpr hc] at this
+    cases this
+
+/-! ### C05: an arbitrary search needle never causes an out-of-bounds or misaligned read -/
+
+/-- **C05 (out of domain).** For an arbitrary search needle (any bytes, any length, unrelated
+to the construction needle) and a haystack of at least `min_haystack_len` bytes, `find` either
+returns normally, or stops at the out-of-allocation `end.sub(needle.len())` (observation O2,
+exactly when `find_ptrOob_iff` says), or stops at the tail's
+`debug_assert!(overlap < V::BYTES)` (exactly when `find_debugAssert_iff` says). -/
+theorem find_reads_ok (L : Lawful V) (f : Finder) (hok : FinderOk V f) (hay needle : Slice)
+    (hh : hay.Valid) (hn : needle.Valid) (hlen : f.minHaystackLen ≤ hay.len) (c : Ctr) :
+    (∃ r c', find V f hay needle c = .ok r c') ∨
+    find V f hay needle c = .fault (.ptrOob siteEndSub) ∨
+    find V f hay needle c = .fault (.debugAssert siteOverlap) := by
+  by_cases hg : needle.len ≤ hay.off + hay.len
+  · rcases find_foreign_good L f hok hay needle hh hn hlen hg c with
+      ⟨r, c', hr, -⟩ | ⟨hr, -⟩
+    · exact Or.inl ⟨r, c', hr⟩
+    · exact Or.inr (Or.inr hr)
+  · rcases find_foreign_bad L f hok hay needle hh hlen (by omega) c with ⟨-, hr⟩ | ⟨-, c', hr⟩
+    · exact Or.inr (Or.inl hr)
+    · exact Or.inl ⟨none, c', hr⟩
+
+/-- in particular: no out-of-bounds read and no misaligned load, whatever the search needle -/
+theorem find_no_bad_read (L : Lawful V) (f : Finder) (hok : FinderOk V f) (hay needle : Slice)
+    (hh : hay.Valid) (hn : needle.Valid) (hlen : f.minHaystackLen ≤ hay.len) (c : Ctr) :
+    (∀ r a l, find V f hay needle c ≠ .fault (.oobRead r a l)) ∧
+    (∀ a w, find V f hay needle c ≠ .fault (.misaligned a w)) := by
+  rcases find_reads_ok L f hok hay needle hh hn hlen c with ⟨r, c', hr⟩ | hr | hr <;>
+    rw [hr] <;> exact ⟨fun _ _ _ h => (by cases h), fun _ _ h => (by cases h)⟩
+
+/-- **O2, exactly.** `find` computes `end.sub(needle.len())` outside the haystack's allocation
+iff the search needle is longer than the part of the region that ends with the haystack and
+the byte pair matches at an offset `q` whose chunk `[q - q % BYTES, ..)` belongs to the main
+loop. -/
+theorem find_ptrOob_iff (L : Lawful V) (f : Finder) (hok : FinderOk V f) (hay needle : Slice)
+    (hh : hay.Valid) (hn : needle.Valid) (hlen : f.minHaystackLen ≤ hay.len) (c : Ctr) :
+    find V f hay needle c = .fault (.ptrOob siteEndSub) ↔
+      hay.off + hay.len < needle.len ∧
+        ∃ q, q ≤ hay.len - f.minHaystackLen + q % V.bytes ∧ f.CandAt hay q := by
+  by_cases hg : needle.len ≤ hay.off + hay.len
+  · constructor
+    · intro h
+      rcases find_foreign_good L f hok hay needle hh hn hlen hg c with
+        ⟨r, c', hr, -⟩ | ⟨hr, -⟩ <;> rw [hr] at h <;> cases h
+    · intro ⟨h, _⟩; omega
+  · rcases find_foreign_bad L f hok hay needle hh hlen (by omega) c with
+      ⟨hex, hr⟩ | ⟨hnone, c', hr⟩
+    · exact ⟨fun _ => ⟨by omega, hex⟩, fun _ => hr⟩
+    · constructor
+      · intro h; rw [hr] at h; cases h
+      · intro ⟨_, q, hq, hc⟩
+        exact absurd hc (hnone q hq)
+
+/-- **New observation, exactly.** `find` reaches `debug_assert!(overlap < V::BYTES)` with
+`overlap = V::BYTES` iff `len - min_haystack_len` is a multiple of `BYTES`, the search needle is
+at least `BYTES` shorter than `min_haystack_len`, and no scanned offset is a hit. -/
+theorem find_debugAssert_iff (L : Lawful V) (f : Finder) (hok : FinderOk V f)
+    (hay needle : Slice) (hh : hay.Valid) (hn : needle.Valid)
+    (hlen : f.minHaystackLen ≤ hay.len) (c : Ctr) :
+    find V f hay needle c = .fault (.debugAssert siteOverlap) ↔
+      OverlapCond V f hay needle ∧ ∀ q, q < f.scanned V hay → ¬ f.HitAt' hay needle q := by
+  by_cases hg : needle.len ≤ hay.off + hay.len
+  · rcases find_foreign_good L f hok hay needle hh hn hlen hg c with
+      ⟨r, c', hr, hres, -, hD⟩ | ⟨hr, hD, hno⟩
+    · constructor
+      · intro h; rw [hr] at h; cases h
+      · intro ⟨h1, h2⟩
+        cases r with
+        | some x => exact absurd hres.2.1 (h2 x hres.1)
+        | none => exact absurd h1 (hD rfl)
+    · exact ⟨fun _ => ⟨hD, hno⟩, fun _ => hr⟩
+  · constructor
+    · intro h
+      rcases find_foreign_bad L f hok hay needle hh hlen (by omega) c with
+        ⟨-, hr⟩ | ⟨-, c', hr⟩ <;> rw [hr] at h <;> cases h
+    · intro ⟨⟨_, h⟩, _⟩; omega
+
+/-! ### C14 -/
+
+/-- **C14.** For any search needle, `find` panics at its `assert!` iff the haystack is shorter
+than `min_haystack_len`. -/
+theorem find_panics_iff (L : Lawful V) (f : Finder) (hok : FinderOk V f) (hay needle : Slice)
+    (hh : hay.Valid) (hn : needle.Valid) (c : Ctr) :
+    find V f hay needle c = .fault (.panic "packedpair::find: haystack too small") ↔
+      hay.len < f.minHaystackLen := by
+  constructor
+  · intro h
+    by_cases hlen : f.minHaystackLen ≤ hay.len
+    · rcases find_reads_ok L f hok hay needle hh hn hlen c with ⟨r, c', hr⟩ | hr | hr <;>
+        rw [hr] at h <;> cases h
+    · omega
+  · exact find_too_small f hay needle c
+
+/-! ### C12 + C13: the construction needle -/
+
+theorem findCost_le (f : Finder) (hay needle : Slice) :
+    findCost V f hay needle ≤
+      (hay.len / V.bytes + 2) * (1 + V.bytes * (needle.len / 4 + 3)) := by
+  unfold findCost
+  apply Nat.mul_le_mul_right
+  have : (hay.len - f.minHaystackLen) / V.bytes ≤ hay.len / V.bytes :=
+    Nat.div_le_div_right (Nat.sub_le _ _)
+  omega
+
+/-- **C12 (+ C13).** For the finder `new(needle, Pair{i1, i2})` built from `needle` with two
+distinct in-range indices, `find(haystack, needle)` on a haystack of at least
+`min_haystack_len` bytes returns the leftmost occurrence of `needle`, without any fault, in at
+most `((len - min_haystack_len) / BYTES + 2) * (1 + BYTES * (needle.len / 4 + 3))` steps. -/
+theorem find_correct (L : Lawful V) (hay needle : Slice) (hh : hay.Valid) (hn : needle.Valid)
+    (i1 i2 : Nat) (hne : i1 ≠ i2) (h1 : i1 < needle.len) (h2 : i2 < needle.len)
+    (f : Finder) (c0 c0' : Ctr) (hf : Finder.new V needle i1 i2 c0 = .ok f c0')
+    (hlen : f.minHaystackLen ≤ hay.len) (c : Ctr) :
+    ∃ c', find V f hay needle c = .ok (Spec.leftmost hay.toArray needle.toArray) c' ∧
+      c'.steps ≤ c.steps + findCost V f hay needle := by
+  obtain ⟨rfl, -⟩ := new_eq h1 h2 hf
+  have hok := mkFinder_ok (V := V) needle i1 i2 hne
+  have hpos := V.bytes_pos
+  have hml : (mkFinder V needle i1 i2).minHaystackLen = max needle.len (max i1 i2 + V.bytes) := rfl
+  have hg : needle.len ≤ hay.off + hay.len := by omega
+  rcases find_foreign_good L _ hok hay needle hh hn hlen hg c with
+    ⟨r, c', hr, hres, hcost, -⟩ | ⟨-, ⟨-, hD⟩, -⟩
+  · refine ⟨c', ?_, hcost⟩
+    rw [hr]
+    congr 1
+    cases r with
+    | some x =>
+      obtain ⟨a1, a2, a3⟩ := hres
+      symm
+      rw [Spec.leftmost_eq_some_iff]
+      exact ⟨a2.2, fun j hj ho => a3 j hj ⟨candAt_of_occAt hn h1 h2 ho, ho⟩⟩
+    | none =>
+      symm
+      rw [Spec.leftmost_eq_none_iff]
+      intro j ho
+      apply hres j
+      · have := ho.1
+        rw [toArray_size hh, toArray_size hn] at this
+        unfold Finder.scanned
+        omega
+      · exact ⟨candAt_of_occAt hn h1 h2 ho, ho⟩
+  · omega
+
+/-- **C13.** the bound of `find_correct` in the form `(len / BYTES + 2) * (1 + BYTES * (needle.len / 4 + 3))`:
+linear in the haystack length for a bounded needle length. -/
+theorem find_cost (L : Lawful V) (hay needle : Slice) (hh : hay.Valid) (hn : needle.Valid)
+    (i1 i2 : Nat) (hne : i1 ≠ i2) (h1 : i1 < needle.len) (h2 : i2 < needle.len)
+    (f : Finder) (c0 c0' : Ctr) (hf : Finder.new V needle i1 i2 c0 = .ok f c0')
+    (hlen : f.minHaystackLen ≤ hay.len) (c : Ctr) :
+    ∃ r c', find V f hay needle c = .ok r c' ∧
+      c'.steps ≤ c.steps + (hay.len / V.bytes + 2) * (1 + V.bytes * (needle.len / 4 + 3)) := by
+  obtain ⟨c', hr, hc⟩ := find_correct L hay needle hh hn i1 i2 hne h1 h2 f c0 c0' hf hlen c
+  exact ⟨_, c', hr, Nat.le_trans hc (Nat.add_le_add_left (findCost_le f hay needle) _)⟩
+
+/-- **C14 for the construction needle**: panic iff too short, otherwise a normal return. -/
+theorem find_panics_or_ok (L : Lawful V) (hay needle : Slice) (hh : hay.Valid)
+    (hn : needle.Valid) (i1 i2 : Nat) (hne : i1 ≠ i2) (h1 : i1 < needle.len)
+    (h2 : i2 < needle.len) (f : Finder) (c0 c0' : Ctr)
+    (hf : Finder.new V needle i1 i2 c0 = .ok f c0') (c : Ctr) :
+    (hay.len < f.minHaystackLen ∧
+      find V f hay needle c = .fault (.panic "packedpair::find: haystack too small")) ∨
+    (f.minHaystackLen ≤ hay.len ∧ ∃ r c', find V f hay needle c = .ok r c') := by
+  by_cases hlen : f.minHaystackLen ≤ hay.len
+  · obtain ⟨c', hr, -⟩ := find_correct L hay needle hh hn i1 i2 hne h1 h2 f c0 c0' hf hlen c
+    exact Or.inr ⟨hlen, _, c', hr⟩
+  · exact Or.inl ⟨by omega, find_too_small f hay needle c (by omega)⟩
+
+/-! ### C11 + C13 + C14: `find_prefilter` -/
+
+/-- value of `find_prefilter`: the lowest scanned offset where the byte pair matches -/
+def PreRes' (V : VecImpl) (f : Finder) (hay : Slice) : Option Nat → Prop
+  | some x => x < f.scanned V hay ∧ f.CandAt hay x ∧ ∀ q, q < x → ¬ f.CandAt hay q
+  | none => ∀ q, q < f.scanned V hay → ¬ f.CandAt hay q
+
+theorem noCandIn_iff (f : Finder) {hay : Slice} (hh : hay.Valid) (n : Nat)
+    (hnr : n + max f.index1 f.index2 ≤ hay.len) :
+    NoCandIn f hay.mem hay.ptr (hay.ptr + n) ↔ ∀ q, q < n → ¬ f.CandAt hay q := by
+  constructor
+  · intro h q hq hc
+    have := h (hay.ptr + q) (by omega) (by omega)
+    rw [(candA_iff f hh q (by omega)).mpr hc] at this
+    cases this
+  · intro h a ha1 ha2
+    have e : a = hay.ptr + (a - hay.ptr) := by omega
+    cases hc : candA f hay.mem a with
+    | false => rfl
+    | true =>
+      rw [e] at hc
+      exact absurd ((candA_iff f hh _ (by omega)).mp hc) (h (a - hay.ptr) (by omega))
+
+/-- step bound of `find_prefilter`: one step per chunk -/
+def preCost' (V : VecImpl) (f : Finder) (hay : Slice) : Option Nat → Nat
+  | some x => x / V.bytes + 1
+  | none => (hay.len - f.minHaystackLen) / V.bytes + 2
+
+/-- `find_prefilter` on a haystack of at least `min_haystack_len` bytes never faults and returns
+the lowest offset among the scanned ones (`0 .. len - min_haystack_len + BYTES - 1`, which
+includes the final chunk re-aligned to `end - min_haystack_len`) where the byte pair matches. -/
+theorem findPrefilter_spec (L : Lawful V) (f : Finder) (hok : FinderOk V f) (hay : Slice)
+    (hh : hay.Valid) (hlen : f.minHaystackLen ≤ hay.len) (c : Ctr) :
+    ∃ r c', findPrefilter V f hay c = .ok r c' ∧ PreRes' V f hay r ∧
+      c'.steps ≤ c.steps + preCost' V f hay r := by
+  have hpos := V.bytes_pos
+  have G := geom_of f hok hh hlen
+  have hmin := hok.min_ge
+  have hno : NoCandIn f hay.mem hay.ptr hay.ptr := fun a h1 h2 => by omega
+  have elim : hay.endPtr - f.minHaystackLen + V.bytes = hay.ptr + f.scanned V hay := by
+    unfold Slice.endPtr Slice.ptr Finder.scanned; omega
+  have hsc : f.scanned V hay + max f.index1 f.index2 ≤ hay.len := by
+    unfold Finder.scanned; omega
+  obtain ⟨r, c', hr, hres, hcost⟩ := prefilterLoop_run L f hay.mem hay.ptr hay.endPtr
+    (hay.endPtr - f.minHaystackLen) hay.ptr c G (Nat.le_refl _)
+    (Nat.le_trans G.hsm (Nat.le_add_right _ _)) hno
+  rw [elim] at hres
+  refine ⟨r, c', by rw [findPrefilter_unfold f hay hh hlen c]; exact hr, ?_, ?_⟩
+  · cases r with
+    | some x =>
+      obtain ⟨a1, a2, a3⟩ := hres
+      exact ⟨by omega, (candA_iff f hh x (by omega)).mp a2,
+        (noCandIn_iff f hh x (by omega)).mp a3⟩
+    | none => exact (noCandIn_iff f hh _ hsc).mp hres
+  · cases r with
+    | some x =>
+      have e : hay.ptr + x - hay.ptr = x := by omega
+      simp only [preCost, preCost', e] at hcost ⊢
+      exact hcost
+    | none =>
+      have e : hay.endPtr - f.minHaystackLen + V.bytes - hay.ptr =
+          (hay.len - f.minHaystackLen) + V.bytes := by
+        unfold Slice.endPtr Slice.ptr; omega
+      simp only [preCost, preCost', e] at hcost ⊢
+      rw [Nat.add_div_right _ hpos] at hcost
+      exact hcost
+
+/-- **C11 (+ C13).** For the finder built from `needle` with two distinct in-range indices
+and a haystack of at least `min_haystack_len` bytes, `find_prefilter` never faults; a returned
+candidate `x` has `hay[x + i1] = needle[i1]` and `hay[x + i2] = needle[i2]` (in range); every
+occurrence `q` of `needle` forces a result `some x` with `x <= q`; hence `None` means there is
+no occurrence. Steps: `x / BYTES + 1` for `Some(x)`, `(len - min_haystack_len) / BYTES + 2` for
+`None`. -/
+theorem findPrefilter_sound (L : Lawful V) (hay needle : Slice) (hh : hay.Valid)
+    (hn : needle.Valid) (i1 i2 : Nat) (hne : i1 ≠ i2) (h1 : i1 < needle.len)
+    (h2 : i2 < needle.len) (f : Finder) (c0 c0' : Ctr)
+    (hf : Finder.new V needle i1 i2 c0 = .ok f c0') (hlen : f.minHaystackLen ≤ hay.len)
+    (c : Ctr) :
+    ∃ r c', findPrefilter V f hay c = .ok r c' ∧
+      (∀ x, r = some x → x + max i1 i2 < hay.len ∧
+        hay.toArray[x + i1]? = needle.toArray[i1]? ∧
+        hay.toArray[x + i2]? = needle.toArray[i2]?) ∧
+      (∀ q, Spec.OccAt hay.toArray needle.toArray q → ∃ x, r = some x ∧ x ≤ q) ∧
+      (r = none → ∀ q, ¬ Spec.OccAt hay.toArray needle.toArray q) ∧
+      c'.steps ≤ c.steps + preCost' V f hay r := by
+  obtain ⟨rfl, -⟩ := new_eq h1 h2 hf
+  have hok := mkFinder_ok (V := V) needle i1 i2 hne
+  have hml : (mkFinder V needle i1 i2).minHaystackLen = max needle.len (max i1 i2 + V.bytes) := rfl
+  obtain ⟨r, c', hr, hres, hcost⟩ := findPrefilter_spec L _ hok hay hh hlen c
+  have hpos := V.bytes_pos
+  have hocc : ∀ q, Spec.OccAt hay.toArray needle.toArray q →
+      q < (mkFinder V needle i1 i2).scanned V hay := by
+    intro q ho
+    have := ho.1
+    rw [toArray_size hh, toArray_size hn] at this
+    unfold Finder.scanned
+    omega
+  have hkey : ∀ q, Spec.OccAt hay.toArray needle.toArray q → ∃ x, r = some x ∧ x ≤ q := by
+    intro q ho
+    have hc : (mkFinder V needle i1 i2).CandAt hay q := candAt_of_occAt hn h1 h2 ho
+    cases r with
+    | none => exact absurd hc (hres q (hocc q ho))
+    | some x =>
+      refine ⟨x, rfl, ?_⟩
+      by_cases hxq : x ≤ q
+      · exact hxq
+      · exact absurd hc (hres.2.2 q (by omega))
+  refine ⟨r, c', hr, ?_, hkey, ?_, hcost⟩
+  · intro x hx
+    subst hx
+    obtain ⟨a1, ⟨a2, a3⟩, -⟩ := hres
+    have hr1 : x + max i1 i2 < hay.len := by
+      unfold Finder.scanned at a1
+      omega
+    have a2' : hay.toArray[x + i1]? = some (needle.getD i1) := a2
+    have a3' : hay.toArray[x + i2]? = some (needle.getD i2) := a3
+    refine ⟨hr1, ?_, ?_⟩
+    · rw [a2', toArray_getElem? hn h1, ← getD_eq_byteAt]
+    · rw [a3', toArray_getElem? hn h2, ← getD_eq_byteAt]
+  · intro hnone q ho
+    obtain ⟨x, hx, -⟩ := hkey q ho
+    rw [hnone] at hx
+    cases hx
+
+/-- **C13 for `find_prefilter`** in the requested form. -/
+theorem findPrefilter_cost (L : Lawful V) (f : Finder) (hok : FinderOk V f) (hay : Slice)
+    (hh : hay.Valid) (hlen : f.minHaystackLen ≤ hay.len) (c : Ctr) :
+    ∃ r c', findPrefilter V f hay c = .ok r c' ∧
+      (∀ x, r = some x → c'.steps ≤ c.steps + x / V.bytes + 2) ∧
+      (r = none → c'.steps ≤ c.steps + hay.len / V.bytes + 2) := by
+  obtain ⟨r, c', hr, -, hcost⟩ := findPrefilter_spec L f hok hay hh hlen c
+  refine ⟨r, c', hr, ?_, ?_⟩
+  · intro x hx
+    subst hx
+    simp only [preCost'] at hcost
+    omega
+  · intro hx
+    subst hx
+    simp only [preCost'] at hcost
+    have : (hay.len - f.minHaystackLen) / V.bytes ≤ hay.len / V.bytes :=
+      Nat.div_le_div_right (Nat.sub_le _ _)
+    omega
+
+/-- **C14 for `find_prefilter`.** -/
+theorem findPrefilter_panics_iff (L : Lawful V) (f : Finder) (hok : FinderOk V f) (hay : Slice)
+    (hh : hay.Valid) (c : Ctr) :
+    (findPrefilter V f hay c =
+        .fault (.panic "packedpair::find_prefilter: haystack too small") ↔
+      hay.len < f.minHaystackLen) ∧
+    (f.minHaystackLen ≤ hay.len → ∃ r c', findPrefilter V f hay c = .ok r c') := by
+  refine ⟨⟨?_, findPrefilter_too_small f hay c⟩, ?_⟩
+  · intro h
+    by_cases hlen : f.minHaystackLen ≤ hay.len
+    · obtain ⟨r, c', hr, -⟩ := findPrefilter_spec L f hok hay hh hlen c
+      rw [hr] at h; cases h
+    · omega
+  · intro hlen
+    obtain ⟨r, c', hr, -⟩ := findPrefilter_spec L f hok hay hh hlen c
+    exact ⟨r, c', hr⟩
+
+/-! ### the hypotheses are satisfiable -/
+
+section Examples
+
+local instance (s : Slice) : Decidable s.Valid := by unfold Slice.Valid; infer_instance
+
+/-- needle "abcdefgh" at address 1000 (region 1) -/
+def exNeedle : Slice := Slice.ofMem { region := 1, base := 1000, bytes := "abcdefgh".toUTF8.data }
+/-- a 40-byte haystack at address 64 containing the needle at offset 21 -/
+def exHay : Slice :=
+  Slice.ofMem { region := 0, base := 64, bytes := "xxabcdefgxxxxxabxxxxxabcdefghxxxxxxxxxxx".toUTF8.data }
+/-- a foreign one-byte search needle -/
+def exForeign : Slice := Slice.ofMem { region := 1, base := 1000, bytes := "z".toUTF8.data }
+
+/-- hypotheses of `find_correct` / `findPrefilter_sound` / `find_cost` with SSE2 vectors, the
+pair `(0, 7)`: `min_haystack_len = 23 <= 40` -/
+example : exHay.Valid ∧ exNeedle.Valid ∧ (0 : Nat) ≠ 7 ∧ 0 < exNeedle.len ∧ 7 < exNeedle.len ∧
+    Finder.new Sensible.sse2 exNeedle 0 7 {} = .ok (mkFinder Sensible.sse2 exNeedle 0 7) {} ∧
+    (mkFinder Sensible.sse2 exNeedle 0 7).minHaystackLen ≤ exHay.len := by
+  refine ⟨by decide, by decide, by decide, by decide, by decide, ?_, by decide⟩
+  exact new_ok exNeedle 0 7 {} (by decide) (by decide)
+
+/-- hence, for instance (the spec evaluates to `some 21`): -/
+example : ∃ c', find Sensible.sse2 (mkFinder Sensible.sse2 exNeedle 0 7) exHay exNeedle {} =
+    .ok (some 21) c' := by
+  obtain ⟨c', h, -⟩ := find_correct Sensible.lawful_sse2 exHay exNeedle (by decide) (by decide)
+    0 7 (by decide) (by decide) (by decide) _ {} {}
+    (new_ok exNeedle 0 7 {} (by decide) (by decide)) (by decide) {}
+  have e : Spec.leftmost exHay.toArray exNeedle.toArray = some 21 := by decide
+  exact ⟨c', e ▸ h⟩
+
+/-- hypotheses of the foreign-needle theorems (`find_reads_ok`, `find_ptrOob_iff`,
+`find_debugAssert_iff`, `find_panics_iff`) with the 4-lane checked vector type: the finder for
+"abcdefgh" with the pair `(0, 1)` has `min_haystack_len = 8`; the 40-byte haystack and the
+one-byte foreign needle satisfy `OverlapCond` (`(40 - 8) % 4 = 0`, `1 + 4 <= 8`). -/
+example : FinderOk Sensible.small4 (mkFinder Sensible.small4 exNeedle 0 1) ∧ exHay.Valid ∧
+    exForeign.Valid ∧ (mkFinder Sensible.small4 exNeedle 0 1).minHaystackLen ≤ exHay.len ∧
+    OverlapCond Sensible.small4 (mkFinder Sensible.small4 exNeedle 0 1) exHay exForeign := by
+  refine ⟨mkFinder_ok _ _ _ (by decide), by decide, by decide, by decide, by decide, by decide⟩
+
+end Examples
+
 end Memchr.PackedPair
+
+#print axioms Memchr.PackedPair.find_correct
+#print axioms Memchr.PackedPair.find_cost
+#print axioms Memchr.PackedPair.find_panics_iff
+#print axioms Memchr.PackedPair.find_panics_or_ok
+#print axioms Memchr.PackedPair.find_reads_ok
+#print axioms Memchr.PackedPair.find_no_bad_read
+#print axioms Memchr.PackedPair.find_ptrOob_iff
+#print axioms Memchr.PackedPair.find_debugAssert_iff
+#print axioms Memchr.PackedPair.find_foreign_good
+#print axioms Memchr.PackedPair.find_foreign_bad
+#print axioms Memchr.PackedPair.findPrefilter_spec
+#print axioms Memchr.PackedPair.findPrefilter_sound
+#print axioms Memchr.PackedPair.findPrefilter_cost
+#print axioms Memchr.PackedPair.findPrefilter_panics_iff
